@@ -5,6 +5,8 @@ CONSTANTS
   ProcOf <- BProcOf
   Prog <- BProg
   Modes = {"fork", "spawn"}
+  QInit = {TRUE}
+  MaxToggle = 0
   CopyStep = TRUE
   Variant = "code"
 INVARIANT TypeOK
